@@ -16,7 +16,7 @@ def main():
         stubs.PARAMS['maxlen'] = 3 if run.thorough else 2
         sm = stubs.make_stubs()
         for e in entries:
-            res, ex = driver.run_entry(run, prog, e, sm, loop_bound=6, max_paths=20000)
+            res, ex = driver.run_entry(run, prog, e, sm, loop_bound=16, max_paths=200000)
             run.log(e, run.extra['paths'].get(e), 'solver calls', ex.solver_calls, '%.1fs' % ex.solver_time)
             driver.report(run, ex, 'prover', 'prover', HARNESS, e, res)
         # structural obligation on the mirror structs that encoding/json decodes into: index fields are 32-bit unsigned, so json rejects larger numbers
